@@ -664,6 +664,8 @@ impl<'b> Decoder<'b> {
 
     /// Get the byte at the current position.
     fn current(&self) -> Result<u8, Error> {
+        #[cfg(all(minicbor_verif, feature = "std"))]
+        verif::step();
         if let Some(b) = self.buf.get(self.pos) {
             return Ok(*b)
         }
@@ -672,6 +674,8 @@ impl<'b> Decoder<'b> {
 
     /// Consume and return the byte at the current position.
     fn read(&mut self) -> Result<u8, Error> {
+        #[cfg(all(minicbor_verif, feature = "std"))]
+        verif::step();
         if let Some(b) = self.buf.get(self.pos) {
             self.pos += 1;
             return Ok(*b)
@@ -681,6 +685,8 @@ impl<'b> Decoder<'b> {
 
     /// Peek to the next byte.
     fn peek(&self) -> Result<u8, Error> {
+        #[cfg(all(minicbor_verif, feature = "std"))]
+        verif::step();
         self.pos.checked_add(1)
             .and_then(|i| self.buf.get(i).copied())
             .ok_or_else(Error::end_of_input)
@@ -688,6 +694,8 @@ impl<'b> Decoder<'b> {
 
     /// Consume and return *n* bytes starting at the current position.
     fn read_slice(&mut self, n: usize) -> Result<&'b [u8], Error> {
+        #[cfg(all(minicbor_verif, feature = "std"))]
+        verif::step();
         if let Some(b) = self.pos.checked_add(n).and_then(|end| self.buf.get(self.pos .. end)) {
             self.pos += n;
             return Ok(b)
@@ -963,6 +971,29 @@ impl<'b> core::ops::Deref for Probe<'_, 'b> {
 impl<'b> core::ops::DerefMut for Probe<'_, 'b> {
     fn deref_mut(&mut self) -> &mut Self::Target {
         &mut self.decoder
+    }
+}
+
+/// Verification hook: per-thread count of input accesses made by decoders.
+#[cfg(all(minicbor_verif, feature = "std"))]
+pub mod verif {
+    std::thread_local! {
+        static STEPS: core::cell::Cell<u64> = const { core::cell::Cell::new(0) };
+    }
+
+    #[inline]
+    pub(super) fn step() {
+        STEPS.with(|s| s.set(s.get().wrapping_add(1)))
+    }
+
+    /// Number of input accesses performed on this thread since the last reset.
+    pub fn steps() -> u64 {
+        STEPS.with(|s| s.get())
+    }
+
+    /// Reset this thread's counter.
+    pub fn reset() {
+        STEPS.with(|s| s.set(0))
     }
 }
 
